@@ -36,7 +36,11 @@ def showEntry : Entry → String
 
 def sortStrings (l : List String) : List String := (l.toArray.qsort (· < ·)).toList
 
-def showIds (ids : List Id) : String := String.intercalate " " ("ok" :: ids.map hexName)
+/-- `sorted`: the order across sub-directories of a recursive listing is not constrained by the
+property (it follows `read_dir`'s order), so both sides sort it. -/
+def showIds (ids : List Id) (sorted : Bool := false) : String :=
+  let l := ids.map hexName
+  String.intercalate " " ("ok" :: (if sorted then sortStrings l else l))
 
 def showLoaded : Option (Name × Bytes) → String
   | some (e, b) => s!"{hexName e}:{hex b}"
@@ -114,13 +118,14 @@ def step (s : St) (ws : List String) : St × String :=
           | some (some (.err x)) =>
             if op == "s.ld" || op == "s.it" || op == "s.ic" then (s, showErr x) else (s, "bad-op")
           | some (some (.ok ids)) =>
-            if op == "s.ld" then (s, showIds ids)
+            if op == "s.ld" then (s, showIds ids (mode == "r"))
             else if op == "s.it" then
               let rs := iter ids (fun x => (x, loadAsset v es x))
               let cached := s.cached ++ (rs.filterMap fun (x, r) => r.map fun _ => (es, x))
-              ({ s with cached }, String.intercalate " " ("ok" :: rs.map fun (x, r) => s!"{hexName x}={showLoaded r}"))
+              let shown := rs.map fun (x, r) => s!"{hexName x}={showLoaded r}"
+              ({ s with cached }, String.intercalate " " ("ok" :: (if mode == "r" then sortStrings shown else shown)))
             else if op == "s.ic" then
-              (s, showIds (iterCached ids (fun x => if (es, x) ∈ s.cached then some x else none)))
+              (s, showIds (iterCached ids (fun x => if (es, x) ∈ s.cached then some x else none)) (mode == "r"))
             else (s, "bad-op")
         | _, _ => (s, "bad-op")
       | _, _ => (s, "bad-op")
